@@ -173,6 +173,8 @@ def run(chk):
     ob_tablerow_new(chk, P)
     ob_for_render(chk, P, 3 if chk.tier == 'quick' else 4)
     ob_tablerow_render(chk, P, 3 if chk.tier == 'quick' else 4)
+    from checks import C02
+    C02.ob_ranges(chk, P)       # (a..b) materialises exactly a..=b (one element when a == b, none when a > b)
 
 
 # ============================================================================ For::render_to
